@@ -501,6 +501,19 @@ func TestC08(t *testing.T) {
 		}
 	}), c08Prop(t, r, "marker_sweep"))
 
+	hx.Enum(r, t, "two_sessions_bad_types", 0, iter.Seq[c08Twin](func(yield func(c08Twin) bool) {
+		for _, st := range []string{stOpenConfirm, stEstablished} {
+			for _, ta := range []uint8{0, 5, 7, 255} {
+				for _, tb := range []uint8{6, 9, 128} {
+					for _, busy := range []bool{true, false} {
+						if !yield(c08Twin{State: st, TypeA: ta, TypeB: tb, BusyA: busy}) {
+							return
+						}
+					}
+				}
+			}
+		}
+	}), c08TwinProp(t, r, "two_sessions_bad_types"))
 	hx.Rapid(r, t, "generated_headers", r.N(3000, 40000), genC08, c08Prop(t, r, "generated_headers"))
 	hx.Rapid(r, t, "fault_after_history", r.N(800, 10000), genC08History, c08HistoryProp(t, r, "fault_after_history"))
 	hx.Rapid(r, t, "fault_while_writing", r.N(300, 4000), genC08Busy, c08BusyProp(t, r, "fault_while_writing"))
@@ -657,6 +670,113 @@ func genC08History(rt *rapid.T) c08History {
 	c.DurMs = pick(rt, "dur", h/2, h+h/10, 2*h+h/7, 5*h, rapid.IntRange(5, 50).Draw(rt, "durtenths")*h/10)
 	c.TailMs = pick(rt, "tail", 0, 1, h/3-1, h/3+1, h*2/3)
 	return c
+}
+
+// ---- faults on two sessions at the same time
+
+// Each NOTIFICATION names the fault of its own connection: two peers receive headers
+// with different unknown type octets in the same burst, one of them behind a message
+// whose plugin callback keeps its FSM goroutine busy, so that its reader has the
+// error ready long before it is looked at.
+type c08Twin struct {
+	State string `json:"state"` // of both sessions: openconfirm (reached by the burst itself) or established
+	TypeA uint8  `json:"type_a"`
+	TypeB uint8  `json:"type_b"`
+	BusyA bool   `json:"busy_a"`
+}
+
+func c08TwinProp(t *testing.T, r *hx.Run, sub string) func(c c08Twin) hx.Verdict {
+	return func(c c08Twin) hx.Verdict {
+		r.SetCurrent(sub, c)
+		v := hx.Verdict{Class: fmt.Sprintf("%s/busy=%v", c.State, c.BusyA)}
+		v.NT = fmt.Sprintf("%+v", c)
+		pa := world.PeerSpec{Remote: "10.0.0.2", LocalAS: 64512, RemoteAS: 64513, Passive: true, Hold: 90}
+		pb := world.PeerSpec{Remote: "10.0.0.3", LocalAS: 64512, RemoteAS: 64514, Passive: true, Hold: 90}
+		if c.BusyA {
+			pa.Plugin.SpinUs = map[string]int64{"open": 400, "upd": 400}
+		}
+		var dev *hx.Dev
+		fail := func(key, f string, a ...any) {
+			if dev == nil {
+				dev = hx.Devf(key, f, a...)
+			}
+		}
+		o := world.Run(t, func() {
+			w, err := world.New("10.0.0.1", nil)
+			if err != nil {
+				fail("setup", "%v", err)
+				return
+			}
+			defer w.Finish()
+			for _, p := range []world.PeerSpec{pa, pb} {
+				if err := w.AddPeer(p); err != nil {
+					fail("setup", "%v", err)
+					return
+				}
+			}
+			w.Serve()
+			w.Settle()
+			ca, cb := w.Inbound(pa.Remote, "10.0.0.1"), w.Inbound(pb.Remote, "10.0.0.1")
+			w.Settle()
+			var leadA, leadB []byte
+			for _, x := range []struct {
+				p    world.PeerSpec
+				c    *memnet.Conn
+				lead *[]byte
+			}{{pa, ca, &leadA}, {pb, cb, &leadB}} {
+				hs := handshakeBytes(x.p, x.c, c.State, 90)
+				if c.State == stOpenConfirm {
+					// the OPEN travels with the faulty header
+					*x.lead, hs = hs[len(hs)-1], hs[:len(hs)-1]
+				} else {
+					*x.lead = wire.Frame(wire.TypeUpdate, taggedUpdate(0xA7000000, 12))
+				}
+				for _, m := range hs {
+					x.c.RemoteSend(m, nil)
+					w.Settle()
+				}
+			}
+			ga, _ := world.Parsed(ca)
+			gb, _ := world.Parsed(cb)
+			na, nb := len(ga), len(gb)
+			var mk [16]byte
+			copy(mk[:], goodMarker())
+			ca.RemoteSend(append(append([]byte{}, leadA...), wire.RawHeader(mk, 19, c.TypeA)...), nil)
+			cb.RemoteSend(append(append([]byte{}, leadB...), wire.RawHeader(mk, 19, c.TypeB)...), nil)
+			w.Settle()
+			for _, x := range []struct {
+				name string
+				c    *memnet.Conn
+				n    int
+				ty   uint8
+			}{{"A", ca, na, c.TypeA}, {"B", cb, nb, c.TypeB}} {
+				msgs, perr := world.Parsed(x.c)
+				if perr != nil {
+					fail("malformed-output", "session %s: %v", x.name, perr)
+					return
+				}
+				after := msgs[x.n:]
+				if len(after) == 0 || after[len(after)-1].Type != wire.TypeNotification {
+					fail("no-single-notification", "session %s: header with unknown type %d: corebgp sent %d messages, the last is not a NOTIFICATION", x.name, x.ty, len(after))
+					return
+				}
+				n, _ := wire.ParseNotif(after[len(after)-1].Body)
+				if n.Code != 1 || n.Sub != 3 || !bytes.Equal(n.Data, []byte{x.ty}) {
+					fail("bad-type-data", "session %s received type octet %d (session A: %d, session B: %d, same burst); its NOTIFICATION is %v", x.name, x.ty, c.TypeA, c.TypeB, n)
+					return
+				}
+				if !x.c.Snapshot().LocalClosed {
+					fail("not-closed", "session %s: connection still open after the NOTIFICATION", x.name)
+					return
+				}
+			}
+		})
+		if b := o.Bad(); b != "" {
+			fail("wedge", "%s", b)
+		}
+		v.Dev = dev
+		return v
+	}
 }
 
 // ---- a fault while local writers are busy
